@@ -101,6 +101,54 @@ def ground_axioms(enc, ob):
                         L = q * m ** (q - 1) * 1.000001
                         add("approximate inverse pair (q < 1): |pow(y,q) - x| <= q m^(q-1) |y - pow(x,1/q)| + 1e-12 for y, pow(x,1/q) >= m = 1e-3, x <= 4",
                             f"(=> (and (>= {N(xa)} 0.0) (<= {N(xa)} 4.0) (>= {N(xb)} {fr(m)}) (>= {N(ia)} {fr(m)})) (<= {abse} (+ (* {fr(L)} {absd}) 0.000000000001)))")
+    # scaled approximate inverse pairs: applications r1 = pow(x1, p), r2 = pow(x2, q), p q = 1, where x2 is (numerically, at two sample
+    # points) a constant multiple c of r1 although not syntactically so. For ANY constant c > 0 the following is a theorem (mean
+    # value theorem for y -> y^q between x2 and c r1, and (c r1)^q = c^q x1^(p q)); the numerical estimate only chooses which
+    # instance is worth stating:
+    #   q >= 1:  0 <= x2, c r1 <= M  =>  |r2 - c^q x1| <= q M^(q-1) |x2 - c r1| + c^q 1e-9 x1      (0 <= x1 <= 1000)
+    #   q <  1:  x2, c r1 >= m       =>  |r2 - c^q x1| <= q m^(q-1) |x2 - c r1| + c^q 1e-9 x1
+    if ob.get("vars") and os.environ.get("PV_SCALED_PAIRS", "1") != "0":
+        from . import dageval as _DE
+        cand = [(a, b) for a in range(len(pows)) for b in range(len(pows)) if a != b]
+        pts = _DE.sample_points(ob["vars"], 2, 7)[1:3] if cand else []
+        vals = []
+        if cand:
+            roots = sorted({x for (x, p), i in pows for x in (x, i)})
+            for pt in pts:
+                try:
+                    vals.append(_DE.evaluate(nodes, pt, roots))
+                except Exception:
+                    vals = []
+                    break
+        for a, b in (cand if len(vals) == 2 else []):
+            (x1, p1), i1 = pows[a]
+            (x2, p2), i2 = pows[b]
+            v1, v2 = cval(nodes, p1), cval(nodes, p2)
+            if v1 is None or v2 is None or v1 <= 0 or abs(v1 * v2 - 1.0) > 1e-13 or x2 == i1:
+                continue
+            try:
+                cs = [float(v[x2]) / float(v[i1]) for v in vals]
+            except Exception:
+                continue
+            if not all(c == c and c > 0 and abs(c) < 1e30 for c in cs) or abs(cs[0] - cs[1]) > 1e-7 * abs(cs[0]):
+                continue
+            c, q = cs[0], v2
+            cq = c ** q
+            d = f"(- {N(x2)} (* {fr(c)} {N(i1)}))"
+            e = f"(- {N(i2)} (* {fr(cq)} {N(x1)}))"
+            absd = f"(ite (>= {d} 0.0) {d} (- {d}))"
+            abse = f"(ite (>= {e} 0.0) {e} (- {e}))"
+            slack = f"(+ (* {fr(cq * 1e-9)} {N(x1)}) 0.000000000001)"
+            if q >= 1:
+                M = 4.0
+                L = q * M ** (q - 1) * 1.000001
+                add("scaled approximate inverse pair (q >= 1): |pow(x2,q) - c^q x1| <= q M^(q-1) |x2 - c pow(x1,1/q)| + c^q 1e-9 x1, any constant c > 0 (chosen numerically)",
+                    f"(=> (and (>= {N(x1)} 0.0) (<= {N(x1)} 1000.0) (>= {N(x2)} 0.0) (<= {N(x2)} {fr(M)}) (>= {N(i1)} 0.0) (<= (* {fr(c)} {N(i1)}) {fr(M)})) (<= {abse} (+ (* {fr(L)} {absd}) {slack})))")
+            else:
+                m = 1e-3
+                L = q * m ** (q - 1) * 1.000001
+                add("scaled approximate inverse pair (q < 1): |pow(x2,q) - c^q x1| <= q m^(q-1) |x2 - c pow(x1,1/q)| + c^q 1e-9 x1, any constant c > 0 (chosen numerically)",
+                    f"(=> (and (>= {N(x1)} 0.0) (<= {N(x1)} 1000.0) (>= {N(x2)} {fr(m)}) (>= (* {fr(c)} {N(i1)}) {fr(m)})) (<= {abse} (+ (* {fr(L)} {absd}) {slack})))")
     # Lipschitz bounds between applications with the same constant exponent (mean value theorem on a guarded range):
     #   p >= 1: |x^p - y^p| <= p M^(p-1) |x - y|  for 0 <= x, y <= M ;  p < 1: |x^p - y^p| <= p m^(p-1) |x - y|  for x, y >= m
     for a in range(len(pows)):
